@@ -16,6 +16,7 @@ pub trait Src {
     fn bytes16(&mut self) -> [u8; 16];
 }
 
+
 use wasmparser::{AbstractHeapType, HeapType, RefType, UnpackedIndex, ValType};
 use super::W;
 use W::ir::types::DataType;
@@ -92,3 +93,26 @@ pub fn k4_v128_bytes_preserved<S: Src>(s: &mut S) -> Option<(bool, String)> {
     let n = W::verif_export::v128_to_u128(&v);
     Some((n.to_le_bytes() == b && (n as i128).to_le_bytes() == b, desc!("{:?} -> {:#x}", b, n)))
 }
+
+/// C30/C02: a numeric constant initialiser is emitted bit-exactly: integers as upstream's const-expression builder emits
+/// them, floats as opcode 0x43 / 0x44 followed by the little-endian IEEE bytes (every NaN payload) and `end`
+/// (kind 0: i32, 1: i64, 2: f32 bits, 3: f64 bits)
+pub fn k4_initexpr_numeric_const_matches_upstream<S: Src>(s: &mut S) -> Option<(bool, String)> {
+    use wasm_encoder::Encode;
+    use W::ir::types::{InitExpr, InitInstr, Value};
+    let kind = s.u8();
+    let bits = s.u64();
+    if kind > 3 { return None; }
+    let mut b: Vec<u8> = Vec::new();
+    let v = match kind {
+        0 => { wasm_encoder::ConstExpr::i32_const(bits as u32 as i32).encode(&mut b); Value::I32(bits as u32 as i32) }
+        1 => { wasm_encoder::ConstExpr::i64_const(bits as i64).encode(&mut b); Value::I64(bits as i64) }
+        2 => { b.push(0x43); b.extend_from_slice(&(bits as u32).to_le_bytes()); b.push(0x0B); Value::F32(f32::from_bits(bits as u32)) }
+        _ => { b.push(0x44); b.extend_from_slice(&bits.to_le_bytes()); b.push(0x0B); Value::F64(f64::from_bits(bits)) }
+    };
+    let ours = W::verif_export::init_expr_to_wasmencoder(&InitExpr::new(vec![InitInstr::Value(v)]));
+    let mut a: Vec<u8> = Vec::new();
+    ours.encode(&mut a);
+    Some((a == b, desc!("kind {} bits {:#x}: ours {:?} expected {:?}", kind, bits, a, b)))
+}
+
